@@ -19,5 +19,5 @@ Proof. reflexivity. Qed.
 Lemma magic_ok : activeMagic = 1397768526 /\ freeMagic = 1179796805.
 Proof. split; reflexivity. Qed.
 
-Lemma growMin_ok : growMin = 4096.
-Proof. reflexivity. Qed.
+(* growMin (the growth quantum found in allocateSpan) is only recorded: the growth amount is an oracle argument of
+   the model, every theorem holds for any amount >= the record *)
